@@ -677,3 +677,74 @@ Qed.
 
 Theorem std_call_taken_for_a_table c : cfg_std_call_rejected c = false -> seen c SStdCall = ARel.
 Proof. intro H. cbn [seen]. rewrite H. reflexivity. Qed.
+
+(* ------------------------------------------------------------------ C10-F6: excluded columns, characterised exactly *)
+
+Lemma lower_ref_inferred c sc id t i : resolve sc id = RInferred (IInput t i) -> lower_ref c sc id = OInferredColumn t i.
+Proof. intro H. unfold lower_ref, lower_ref_in. rewrite H. reflexivity. Qed.
+
+(* the implementation (faithful model) differs from what the property demands EXACTLY on inferences of excluded columns *)
+Theorem excluded_characterised ex c sc id :
+  lower_ref c sc id <> lower_ref_x ex c sc id <-> excluded_inference ex sc id = true.
+Proof.
+  unfold lower_ref_x. destruct (excluded_inference ex sc id) eqn:E.
+  - split; [reflexivity|]. intros _.
+    unfold excluded_inference in E.
+    destruct (resolve sc id) as [x|[t i|]|e] eqn:R; try discriminate. destruct t; [discriminate|].
+    rewrite (lower_ref_inferred c sc id false i R). discriminate.
+  - split; [|discriminate]. intro H. exfalso. apply H. reflexivity.
+Qed.
+
+Theorem no_exclusions_no_difference c sc id : lower_ref_x [] c sc id = lower_ref c sc id.
+Proof.
+  unfold lower_ref_x, excluded_inference. destruct (resolve sc id) as [x|[t i|]|e]; try reflexivity. destruct t; reflexivity.
+Qed.
+
+(* an excluded column that is inferred: the property says Unknown, the implementation binds it *)
+Theorem excluded_inference_is_a_binding ex c sc id :
+  excluded_inference ex sc id = true ->
+  lower_ref_x ex c sc id = OErr EUnknown /\ exists i, lower_ref c sc id = OInferredColumn false i.
+Proof.
+  intro E. split; [unfold lower_ref_x; rewrite E; reflexivity|].
+  unfold excluded_inference in E. destruct (resolve sc id) as [x|[t i|]|e] eqn:R; try discriminate. destruct t; [discriminate|].
+  exists i. apply lower_ref_inferred. exact R.
+Qed.
+
+(* ------------------------------------------------------------------ C10-F5: the un-naming rule, characterised exactly *)
+
+Lemma same_slot_same_name f g : same_slot f g = true -> same_name f g = true.
+Proof. unfold same_slot. intro H. apply andb_true_iff in H as [H _]. exact H. Qed.
+
+Lemma existsb_slot_name f r : existsb (same_slot f) r = true -> existsb (same_name f) r = true.
+Proof.
+  intro H. apply existsb_exists in H as [g [Hi Hg]]. apply existsb_exists. exists g. split; [exact Hi | apply same_slot_same_name; exact Hg].
+Qed.
+
+(* the implemented rule and the rule that respects relation prefixes agree EXACTLY on tuples in which no field's name is taken by
+   a field of another relation *)
+Theorem unname_characterised fs : unname fs = unname_spec fs <-> dup_across fs = false.
+Proof.
+  induction fs as [|f r IH]; [split; reflexivity|].
+  cbn [unname unname_spec dup_across]. unfold stolen.
+  destruct (existsb (same_name f) r) eqn:A; destruct (existsb (same_slot f) r) eqn:B; cbn [andb negb orb].
+  - split; intro H; [injection H as H; apply IH; exact H | f_equal; apply IH; exact H].
+  - split; intro H; discriminate.
+  - apply existsb_slot_name in B. congruence.
+  - split; intro H; [injection H as H; apply IH; exact H | f_equal; apply IH; exact H].
+Qed.
+
+(* after the implemented rule at most ONE field answers to a bare name: a bare name is never ambiguous among the fields of one
+   tuple -- whatever relations they came from *)
+Lemma named_unname_le n : forall fs, (named n (unname fs) <= 1)%nat.
+Proof.
+  induction fs as [|f r IH]; [cbn; lia|].
+  cbn [unname]. unfold named in *. cbn [filter].
+  destruct (existsb (same_name f) r) eqn:A; [exact IH|].
+  destruct (leqb n (snd f)) eqn:E; [|exact IH].
+  cbn [length]. assert (filter (fun o => match o with Some f0 => leqb n (snd f0) | None => false end) (unname r) = []) as ->; [|cbn; lia].
+  clear IH. induction r as [|g r IHr]; [reflexivity|].
+  cbn [existsb] in A. apply orb_false_iff in A as [A1 A2].
+  cbn [unname filter]. destruct (existsb (same_name g) r); [apply IHr; exact A2|].
+  unfold same_name in A1. apply leqb_spec in E. subst n.
+  rewrite A1. apply IHr. exact A2.
+Qed.
